@@ -363,6 +363,15 @@ def r04_6(ctx):
     # levels are closed only if each level is a starting point
     for c in calls:
         lp = guards.in_loop(c, hr.node)
+        q = parent(c)
+        in_comp = False
+        while q is not None and q is not hr.node:
+            if isinstance(q, (ast.ListComp, ast.GeneratorExp, ast.SetComp, ast.DictComp)):
+                in_comp = True
+            q = parent(q)
+        if in_comp or isinstance(lp, ast.While):
+            ctx.undecided('R04.6', hr.qual, 'marking closure started on every level', c, 'iteration form not recognised')
+            continue
         if lp is None or not isinstance(lp, ast.For):
             ctx.violated('R04.6', hr.qual, 'marking closure started on every level', c,
                          '`%s` is called once, not for every level: the recursion steps down by the disparity and stops at the first empty '
